@@ -1,11 +1,121 @@
 import Uft.Model.Events
+import Uft.Model.CallTree
 import Uft.Lemmas.Events
-/- C17 — Read-trigger and watchpoint events are placed and valued consistently. -/
+/-
+C17 — Read-trigger and watchpoint events are placed and valued consistently.
+
+The theorems are about the event model `Uft/Model/Events.lean` (save_trigger_read,
+save_watchpoint, record_ret_stack's emission order, the flush / drop rules of
+mcount_exit_filter_record, on top of the hook model of C02/C05), which the check
+`checks/c17.py` validates against the real libmcount on every run.  `fixArg`, `fixVar`,
+`fixIdx` select the repaired (true) or the as-coded (false) variant of three defects of the
+unchanged tree (F17c, F17b, F17d); the property theorems are for the repaired variants where
+they need them, and a `c17_prefix_…_witness` shows each as-coded variant violating the property.
+-/
 namespace Uft.C17
 open Uft.Mcount Uft.Events
 
-/-- record_ret_stack writes pending asynchronous events in order and loses none -/
-theorem c17_async_split (p : List Ev) (ts : Nat) :
-    (takeAsync p ts).1 ++ (takeAsync p ts).2 = p := takeAsync_append p ts
+/-! ## Part 1: read/diff events — placement, values, nesting
+
+`runECall` drives the entry/exit hooks over an arbitrary call tree whose nodes carry the
+values the sources return at the two hooks.  No filters, no watchpoints here; any read=
+masks, -A and -R sizes, both hook flavours, any tree. -/
+
+/-- The stream written for a forest of completed calls, starting from a fresh thread, is
+    exactly the specified one: per call ENTRY, the entry hook's read events, the callees,
+    the exit hook's events, EXIT (`specCall`).  Nothing missing, duplicated or reordered. -/
+theorem c17_emit_exact (cfg : ECfg) (hp : PlainE cfg) (k : Kind) (cs : ECalls) (vars : List Nat)
+    (glob : List (Option Nat))
+    (hm : cs.height ≤ cfg.base.maxStack) (hd : cs.height ≤ cfg.base.depthOpt) (ht : cs.timed)
+    (hmin : cfg.base.minSize = 0) (hen : cfg.base.enabled0 = true) :
+    (runECalls cfg k (ESt.init cfg vars glob) cs).out = specCalls cfg k 0 cs ∧
+    (runECalls cfg k (ESt.init cfg vars glob) cs).frames = [] ∧
+    (runECalls cfg k (ESt.init cfg vars glob) cs).pend = [] := by
+  have hg : GoodE (ESt.init cfg vars glob) 0 := by
+    constructor <;> simp [ESt.init, hmin, hen, NoSkipE]
+  obtain ⟨h1, h2, h3⟩ := emitE_calls cfg hp k cs (ESt.init cfg vars glob) 0 hg (by omega) (by omega) ht
+  refine ⟨?_, ?_, h3.pend⟩
+  · rw [h1]; cases cs <;> simp [ESt.init, pendingE]
+  · rw [h2]; cases cs <;> simp [ESt.init, markToE]
+
+example : PlainE ({ read := fun _ => 3, argSize := fun _ => some 100, retSize := fun _ => some 8 } : ECfg) := by
+  constructor
+  · constructor <;> simp
+  · rfl
+  · rfl
+
+example : (ECalls.cons (.node 1 10 50 {} {} (.cons (.node 2 20 40 {} {} .nil) .nil)) .nil).timed ∧
+    (ECalls.cons (.node 1 10 50 {} {} (.cons (.node 2 20 40 {} {} .nil) .nil)) .nil).height ≤ 1024 := by
+  simp [ECalls.timed, ECall.timed, ECalls.height, ECall.height]
+
+/-- `c17_read_diff_placement`: one call of `f` (with any callees), executed in any thread state
+    without active filters: the stream grows by exactly
+      [ENTRY f] ++ R ++ (the callees' records) ++ D ++ [EXIT f]
+    where R are the events saved by the entry hook (each a READ event holding the reading of its
+    source, time = entry time) and D the events saved by the exit hook (time = exit time, each made
+    from the exit reading of its source: the DIFF to the entry event of the same source).  The ENTRY
+    records still owed for the callers (`pendingE`) come first. -/
+theorem c17_read_diff_placement (cfg : ECfg) (hp : PlainE cfg) (k : Kind) (s : ESt) (d f t0 t1 : Nat)
+    (oE oX : Obs) (kids : ECalls)
+    (hg : GoodE s d) (hm : d + kids.height + 1 ≤ cfg.base.maxStack) (hd : d + kids.height + 1 ≤ cfg.base.depthOpt)
+    (ht : t0 < t1) (hk : kids.timed) :
+    ∃ R D : List Ev,
+      (runECall cfg k s (.node f t0 t1 oE oX kids)).out =
+        s.out ++ pendingE s.frames ++
+          ([.record { time := t0, type := 0, depth := d, addr := f } (argPayload cfg k f)] ++ R.map .event ++
+           specCalls cfg k (d + 1) kids ++
+           D.map .event ++ [.record { time := t1, type := 1, depth := d, addr := f } (retPayloadOf cfg k f)]) ∧
+      (∀ e ∈ R, e.time = t0 ∧ HoldsReading oE readEvents e) ∧
+      (∀ e ∈ D, e.time = t1 ∧ FromExit oX readEvents R.reverse e) := by
+  obtain ⟨h1, _, _⟩ := emitE_call cfg hp k (.node f t0 t1 oE oX kids) s d hg
+    (by simp only [ECall.height]; omega) (by simp only [ECall.height]; omega) ⟨ht, hk⟩
+  have hFb := entryFrame_b cfg k f t0 d oE
+  have hFev := entryFrame_evs_time cfg k f t0 d oE
+  have hst : (entryFrame cfg k f t0 d oE).b.start = t0 := by rw [hFb]; rfl
+  have hev' : ∀ e ∈ (entryFrame cfg k f t0 d oE).evs, e.time = (entryFrame cfg k f t0 d oE).b.start := by
+    rw [hst]; exact hFev
+  obtain ⟨new, n1, n2, n3, n4⟩ := exitFrame_events cfg (entryFrame cfg k f t0 d oE) t1 d oX hev'
+    (by rw [hst]; omega) (by omega)
+  refine ⟨(entryFrame cfg k f t0 d oE).evs.reverse, new.reverse, ?_, ?_, ?_⟩
+  · rw [h1]
+    simp only [specCall, exitOut, entryEvs_of_all _ hev', n4, entryOut_entryFrame, exitRecord_exitFrame]
+    simp
+  · intro e he
+    simp only [List.mem_reverse] at he
+    exact ⟨hFev e he, entryFrame_holds cfg k f t0 d oE e he⟩
+  · intro e he
+    simp only [List.mem_reverse] at he
+    simp only [List.reverse_reverse]
+    exact ⟨n2 e he, n3 e he⟩
+
+/-- `c17_diff_value`: a DIFF event written before EXIT holds, field by field, the reading of its
+    source at the exit hook minus the reading at the entry hook (uint64 arithmetic), and the entry
+    hook's READ event of that source is in the stream after ENTRY.  `R`, `D` as in
+    `c17_read_diff_placement`. -/
+theorem c17_diff_value (oE oX : Obs) (R D : List Ev)
+    (hR : ∀ e ∈ R, HoldsReading oE readEvents e) (hD : ∀ e ∈ D, FromExit oX readEvents R.reverse e)
+    (e : Ev) (he : e ∈ D) (s : ReadSrc) (hs : s ∈ readEvents) (hid : e.id = s.idDiff) :
+    ∃ vE vX, oE.reads s.bit = some vE ∧ oX.reads s.bit = some vX ∧
+      e.data = zipSub vX (vE.map (· % u64)) ∧
+      ∃ r ∈ R, r.id = s.idRead ∧ r.data = vE.map (· % u64) := by
+  obtain ⟨s', hs', vX, hvX, hm⟩ := hD e he
+  have inj : ∀ a ∈ readEvents, ∀ b ∈ readEvents, (a.idDiff = b.idDiff ∨ a.idRead = b.idRead) → a = b := by decide
+  have dis : ∀ a ∈ readEvents, ∀ b ∈ readEvents, a.idRead ≠ b.idDiff := by decide
+  cases hf : R.reverse.find? (fun x => x.id == s'.idRead) with
+  | none =>
+    rw [hf] at hm
+    exact absurd (hm.1.symm.trans hid) (dis s' hs' s hs)
+  | some old =>
+    rw [hf] at hm
+    have hss : s' = s := inj s' hs' s hs (Or.inl (hm.1.symm.trans hid))
+    subst hss
+    have hold : old ∈ R := by simpa using List.mem_of_find?_eq_some hf
+    have hoid : old.id = s'.idRead := by simpa using List.find?_some hf
+    obtain ⟨s2, hs2, vE, hvE, h2id, h2data⟩ := hR old hold
+    have : s2 = s' := inj s2 hs2 s' hs (Or.inr (h2id.symm.trans hoid))
+    subst this
+    exact ⟨vE, vX, hvE, hvX, by rw [hm.2, h2data], old, hold, hoid, h2data⟩
+
+example : subU64 8 5 = 3 ∧ subU64 5 8 = 2 ^ 64 - 3 := by decide
 
 end Uft.C17
